@@ -30,6 +30,7 @@ type DaemonCfg struct {
 	L0CheckMs  int `json:"l0CheckMs"`  // Store.L0RetentionCheckInterval
 	ShutdownMs int `json:"shutdownMs"` // shutdown sync timeout
 	ValidateMs int `json:"validateMs"` // Store.ValidationInterval (0 = off)
+	AutoRecover bool `json:"autoRecover"` // Replica.AutoRecoverEnabled: the monitor resets the local state when a local LTX file is missing / corrupt
 	AppAutoCkpt int `json:"appAutoCkpt"` // PRAGMA wal_autocheckpoint of the application's connection (0 = off, as in the other drivers)
 }
 
@@ -45,6 +46,7 @@ func (r *Runner) daemonStart(d DaemonCfg) string {
 	db.ShutdownSyncInterval = 20 * time.Millisecond
 	db.Replica.MonitorEnabled = true
 	db.Replica.SyncInterval = ms(d.SyncMs)
+	db.Replica.AutoRecoverEnabled = d.AutoRecover
 	levels := litestream.CompactionLevels{{Level: 0}, {Level: 1, Interval: ms(d.L1Ms)}, {Level: 2, Interval: ms(d.L2Ms)}}
 	st := litestream.NewStore([]*litestream.DB{db}, levels)
 	st.Logger = discard
@@ -181,6 +183,10 @@ func RunDaemonCase(c Case, baseDir string, d DaemonCfg) (evs []Event) {
 		case "RestoreCheck":
 			ev.Rest = r.Restore(0, time.Time{})
 		default:
+			if ev.Op == "LocalLoss" { // local level-0 files vanish / rot under the running daemon (disk trouble): newest | all | corrupt
+				ev.Res = r.localLoss(ev.Arg)
+				break
+			}
 			if ev.Op == "StDisable" || ev.Op == "StEnable" { // the daemon's own enable / disable of the database, monitors running
 				if sto, ok := r.store.(*litestream.Store); ok && r.lsUp {
 					ctx, cancel := context.WithTimeout(r.ctx, 20*time.Second)
@@ -245,4 +251,36 @@ func (r *Runner) daemonObserve(ev *Event) {
 			ev.ExecFree, ev.ChkFree = r.ls.VerifLocksFree()
 		}
 	}
+}
+
+// localLoss damages litestream's local level-0 staging directory while the daemon runs.
+func (r *Runner) localLoss(mode string) string {
+	dir := r.metaLTXDir() + "/0"
+	ents, err := os.ReadDir(dir)
+	if err != nil || len(ents) == 0 {
+		return "skip"
+	}
+	var names []string
+	for _, e := range ents {
+		if strings.HasSuffix(e.Name(), ".ltx") {
+			names = append(names, e.Name())
+		}
+	}
+	if len(names) == 0 {
+		return "skip"
+	}
+	newest := names[len(names)-1] // ReadDir sorts by name = by TXID
+	switch mode {
+	case "all":
+		for _, n := range names {
+			os.Remove(dir + "/" + n)
+		}
+	case "corrupt":
+		if fi, err := os.Stat(dir + "/" + newest); err == nil && fi.Size() > 8 {
+			os.Truncate(dir+"/"+newest, fi.Size()/2)
+		}
+	default:
+		os.Remove(dir + "/" + newest)
+	}
+	return "ok"
 }
